@@ -100,11 +100,10 @@ func kfSubstr(args []KeyBuilderStage) (KeyBuilderStage, error) {
 			left = lenS
 		}
 
-		right := left + length
-
-		if right > lenS {
-			right = lenS
+		if length > lenS-left { // also keeps left+length from overflowing
+			length = lenS - left
 		}
+		right := left + length
 		return s[left:right]
 	}), nil
 }
